@@ -273,6 +273,7 @@ ZOO = '''package zoo_pkg is
   constant cols : natural := 3;
   function "+" (l, r : level_t) return level_t;
   procedure "-" (l, r : level_t);
+  function "-" (l, r : level_t) return level_t;
   function pick (m : matrix_t; r, c : natural) return bit;
   alias choose is pick [matrix_t, natural, natural return bit];
   procedure bump (variable n : inout natural; signal done : out bit);
@@ -291,6 +292,11 @@ package body zoo_pkg is
   begin
     null;
   end procedure;
+
+  function "-" (l, r : level_t) return level_t is
+  begin
+    return l;
+  end function;
 
   function pick (m : matrix_t; r, c : natural) return bit is
   begin
@@ -325,7 +331,7 @@ begin
   with sel select lvl <=
     low when low,
     mid + low when mid,
-    high when others;
+    high - low when others;
 
   tick <= '1' when lvl = high else
           flag when (lvl) = mid else
@@ -450,3 +456,7 @@ MUT_DESIGN = dict(name='compact design: package with body, enumeration, entity w
                   files=[('lib0', 'mut.vhd', MUT)])
 
 D_RECORDS, D_TREE, D_GENERIC, D_COMB, D_ZOO, D_SEM, D_SYN = DESIGNS
+# a library whose only file holds no design unit, next to a file with an unfinished library clause
+D_EMPTYLIB = dict(name='a library without design units and an unfinished library clause', valid=False,
+                  files=[('lib1', 'empty.vhd', '-- nothing here yet\n'), ('lib0', 'c.vhd', 'library \n\nentity c is\nend entity;\n\nuse \n')])
+DESIGNS.append(D_EMPTYLIB)
